@@ -80,7 +80,7 @@ pub const ITER_KINDS: [IterKind; 7] = [
 /// not yield that half).
 type Item = Option<(u64, u64)>;
 
-fn expected_items(obs: &Obs, pat: &[bool], kind: IterKind) -> Vec<Item> {
+pub fn expected_items(obs: &Obs, pat: &[bool], kind: IterKind) -> Vec<Item> {
     let mut dq: std::collections::VecDeque<&EObs> = obs.entries.iter().collect();
     pat.iter()
         .map(|f| {
